@@ -175,4 +175,131 @@ theorem sendData_data (env : Env) (hw : WrapOK env.wrap) :
           simp [this, idealPackets, hnext, dedupAdj]
         · intro x hx; simp only [hj] at hx; exact hhead x (by simpa using hx)
 
+/-! ### the server's own ERROR packets (`serverErrorsJustified`) -/
+
+/-- no packet other than DATA/OACK goes to the client -/
+def noServerError (l : List Obs) : Bool := l.all (fun o => !isServerError o)
+
+theorem noServerError_append (a b : List Obs) :
+    noServerError (a ++ b) = (noServerError a && noServerError b) := by
+  simp [noServerError, List.all_append]
+
+theorem noServerError_nil : noServerError [] = true := rfl
+
+theorem noServerError_cons (o : Obs) (l : List Obs) :
+    noServerError (o :: l) = (!isServerError o && noServerError l) := by
+  simp [noServerError]
+
+theorem isServerError_send (t dst : Nat) (p : Bytes) :
+    isServerError (.send t dst p) = (dst == 0 && !isFlow p) := rfl
+theorem isServerError_recv (t d src : Nat) (p : Bytes) : isServerError (.recv t d src p) = false := rfl
+theorem isServerError_timeout (t : Nat) : isServerError (.timeout t) = false := rfl
+
+theorem noServerError_awaitAck (expect limit : Nat) :
+    ∀ (s : List Ev) (now : Nat), noServerError (awaitAck expect limit now s).obs = true := by
+  intro s
+  induction s with
+  | nil => intro now; simp [awaitAck, noServerError_cons, noServerError_nil, isServerError_timeout]
+  | cons ev s ih =>
+    intro now
+    cases ev with
+    | silence => simp [awaitAck, noServerError_cons, noServerError_nil, isServerError_timeout]
+    | pkt d cpu src data =>
+      unfold awaitAck
+      split
+      · split
+        · split
+          · split
+            · simp [noServerError_cons, noServerError_nil, isServerError_recv]
+            · simp [noServerError_cons, isServerError_recv, ih]
+          · simp [noServerError_cons, noServerError_nil, isServerError_recv]
+          · simp [noServerError_cons, noServerError_nil, isServerError_recv]
+        · rename_i hsrc
+          simp [noServerError_cons, isServerError_recv, isServerError_send, ih, hsrc]
+      · simp [noServerError_cons, noServerError_nil, isServerError_timeout]
+
+theorem noServerError_sendWithRetry (env : Env) (packet : Bytes) (expect : Nat) (hflow : isFlow packet = true) :
+    ∀ (tries now : Nat) (s : List Ev), noServerError (sendWithRetry env packet expect tries now s).obs = true := by
+  intro tries
+  induction tries with
+  | zero => intro now s; simp [sendWithRetry, noServerError_nil]
+  | succ k ih =>
+    intro now s
+    rw [sendWithRetry_succ]
+    have hA := noServerError_awaitAck expect (now + env.timeout) s now
+    generalize awaitAck expect (now + env.timeout) now s = r at hA
+    have hcons : noServerError (Obs.send now 0 packet :: r.obs) = true := by
+      simp [noServerError_cons, isServerError_send, hflow, hA]
+    cases hout : r.out
+    · exact hcons
+    · simp only [Res.pre_obs, noServerError_append, hcons, ih r.now r.rest, Bool.and_self]
+    · exact hcons
+    · exact hcons
+
+theorem noServerError_sendData (env : Env) :
+    ∀ (blocks : List (Option Bytes)) (prev now : Nat) (s : List Ev),
+      noServerError (sendData env blocks prev now s).obs = true := by
+  intro blocks
+  induction blocks with
+  | nil => intro prev now s; simp [sendData, noServerError_nil]
+  | cons blk blocks ih =>
+    intro prev now s
+    cases blk with
+    | none => simp [sendData, noServerError_nil]
+    | some b =>
+      unfold sendData
+      split
+      · simp [noServerError_nil]
+      · rename_i n _
+        simp only
+        have hS := noServerError_sendWithRetry env (dataPacket n b) n (isFlow_dataPacket n b)
+          (env.maxRetries + 1) now s
+        generalize sendWithRetry env (dataPacket n b) n (env.maxRetries + 1) now s = r at hS
+        cases hout : r.out
+        · simp only [Res.pre_obs, noServerError_append, hS, ih n r.now r.rest, Bool.and_self]
+        · exact hS
+        · exact hS
+        · exact hS
+
+theorem noServerError_processRequest (env : Env) (oack : Opts) (blocks : List (Option Bytes)) (now : Nat)
+    (s : List Ev) : noServerError (processRequest env oack blocks now s).obs = true := by
+  unfold processRequest
+  split
+  · exact noServerError_sendData env blocks 0 now s
+  · have hS := noServerError_sendWithRetry env (oackPacket oack) 0 (isFlow_oackPacket oack)
+      (env.maxRetries + 1) now s
+    generalize sendWithRetry env (oackPacket oack) 0 (env.maxRetries + 1) now s = r at hS
+    cases hout : r.out <;> simp only [hout]
+    · simp only [Res.pre_obs, noServerError_append, hS, noServerError_sendData env blocks 0 r.now r.rest,
+        Bool.and_self]
+    · exact hS
+    · exact hS
+    · exact hS
+
+/-- over a stretch of the trace without a server ERROR the check only advances its state: the C02
+automaton and the DATA packets sent so far -/
+theorem errorsJustifiedFrom_append (T R : Nat) (ideal : List Bytes) (b : List Obs) :
+    ∀ (a : List Obs) (ph ph' : Phase) (sentRev : List Bytes), noServerError a = true →
+      runSteps (c02Step T R) ph a = some ph' →
+      errorsJustifiedFrom T R ideal ph sentRev (a ++ b) =
+        errorsJustifiedFrom T R ideal ph' ((clientData a).reverse ++ sentRev) b := by
+  intro a
+  induction a with
+  | nil =>
+    intro ph ph' sentRev _ hrun
+    simp only [runSteps, Option.some.injEq] at hrun
+    subst hrun
+    simp [clientData]
+  | cons o os ih =>
+    intro ph ph' sentRev hq hrun
+    simp only [noServerError_cons, Bool.and_eq_true, Bool.not_eq_true'] at hq
+    simp only [runSteps] at hrun
+    cases hstep : c02Step T R ph o with
+    | none => simp [hstep] at hrun
+    | some ph1 =>
+      simp only [hstep] at hrun
+      have hcd : clientData (o :: os) = clientData [o] ++ clientData os := clientData_append [o] os
+      simp only [List.cons_append, errorsJustifiedFrom, hq.1, Bool.not_false, Bool.true_or, Bool.true_and, hstep]
+      rw [ih ph1 ph' _ hq.2 hrun, hcd, List.reverse_append, List.append_assoc]
+
 end Vinegar.Tftp
